@@ -63,6 +63,8 @@ def gen_case(cid, kinds, cfg, generic):
             attrs += ["#[is_variant(ignore)]"] + (["#[try_into(ignore)]"] if do_tryinto else []) + (["#[unwrap(ignore)]", "#[try_unwrap(ignore)]"] if do_unwrap else [])
         if vi in vrefs and do_unwrap:
             attrs += ["#[unwrap(ref)]", "#[try_unwrap(ref)]"]
+        if vi in cfg.get("enable_attr", set()):
+            attrs += ["#[is_variant]"] + (["#[try_into(owned)]"] if do_tryinto else []) + (["#[unwrap(owned)]", "#[try_unwrap(owned)]"] if do_unwrap else [])
         fs = []
         for fi, t in enumerate(tys):
             fa = "#[try_into(ignore)] " if fi in fign.get(vi, ()) else ""
@@ -254,6 +256,11 @@ def run(chk, tier):
     for kinds in (["unit"], ["t1a"], ["unit", "t1a"], ["t2", "unit", "n1"], ["t1a", "t1b", "unit"]):
         add(kinds, dict(RAW))
         add(kinds, dict(RAW, refs=True))
+    # an ignored variant first, an un-attributed one, and one carrying an enabling attribute: the un-attributed
+    # variant is not ignored, so its accessors must exist and work
+    mix_alpha = ["unit", "t1a", "t1b", "t2"] + (["t2s", "n1"] if thorough else [])
+    for kinds in itertools.product(mix_alpha, repeat=3):
+        add(kinds, {"ignore": {0}, "enable_attr": {2}})
     if not thorough:
         # a few 3- and 4-variant enums sharing field-type tuples
         for kinds in (["t1a", "t1a", "unit"], ["t2", "n2", "t2s"], ["unit", "unit", "t1b", "t1a"], ["t2", "t2", "t1a", "t1a"]):
